@@ -6,8 +6,9 @@ MonthEnds(years) == { Ordinal(y, m, DaysInMonth(y, m)) : y \in years, m \in 1..1
 QDays == Span(2019, 12, 26, 12) \cup Span(2020, 2, 27, 4) \cup Span(2020, 12, 27, 9) \cup MonthEnds({2019, 2024}) \cup Span(2016, 11, 7, 7)
          \cup {Ordinal(1950, 1, 1), Ordinal(2089, 12, 31), Ordinal(2024, 12, 27), Ordinal(2026, 1, 1)}
          \cup Span(2019, 1, 1, 2) \cup Span(2024, 1, 1, 2) \cup Span(2018, 12, 31, 1)   \* both ends of a year whose first and last days lie in ISO week 1
-TDays == Span(2019, 12, 20, 388) \cup MonthEnds({1950, 1951, 1952, 1999, 2000, 2023, 2024, 2025, 2088, 2089, 2090})
-         \cup UNION { Span(y, 12, 28, 8) : y \in {1950, 1975, 1998, 2004, 2009, 2015, 2026, 2032, 2037, 2048, 2060, 2076, 2089} }
+TDays == Span(2019, 12, 20, 100) \cup MonthEnds({2000, 2023, 2024})
+         \cup UNION { Span(y, 12, 28, 8) : y \in {1950, 1998, 2004, 2009, 2015, 2026, 2032, 2089} } \cup Span(2019, 1, 1, 2) \cup Span(2024, 1, 1, 2)
+(* about 200 days x 3 times x 62 expressions: TLC builds the case set single-threaded, which bounds its size *)
 QTimes == {<<0, 0, 0>>, <<12, 30, 0>>}
 TTimes == {<<0, 0, 0>>, <<12, 30, 0>>, <<23, 59, 59>>}
 AllCases == TLCEval(Cases)
